@@ -64,17 +64,27 @@ class C15(Prop):
         # the persistent counter: the only thing that changes between runs is the variable itself
         out.append(case("if (n) { n++; } else { n = 1; } return [n, 1];", [enc_value([1, 1]), enc_value([2, 1]), enc_value([3, 1])], "counter", runs=3))
         out.append(case("x = 70000; x++; return [x, 70000];", [enc_value([70001, 70000])] * 3, "pool-constant", runs=3))
+        # the field of the host object as the thing mutated: copies made before must not change, nor the object's field in later runs
+        for v in [3, 70000, 9.5]:
+            for m in ("++", "--", " += 2", " *= 3"):
+                stmt = "F%s;" % m
+                nv = {"++": v + 1, "--": v - 1, " += 2": v + 2, " *= 3": v * 3}[m]
+                obj = enc_struct([("F", v), ("G", v)])
+                out.append(case("before = F; %s return [before, G];" % stmt, [enc_value([v, v])], "field-mutated", objs=obj))
+                out.append(case("a = [F, G]; h = {\"k\": F}; %s return [a, h[\"k\"]];" % stmt, [enc_value([[v, v], v])], "field-mutated", objs=obj))
+                out.append(case("foreach e in [F] { %s keep = e; } return keep;" % stmt, [enc_value(v)], "field-mutated", objs=obj))
+                out.append(case("function id(p) { return p; } b = id(F); %s return [b, F];" % stmt, [enc_value([v, nv])], "field-mutated", objs=obj))
         # random sequences of copies and mutations: the model has value semantics, so any sharing shows up as a disagreement
         for _ in range(30000 if tier == "thorough" else 400):
-            out.append(Case("run", {"script": vlib.hx(alias_program(rng)), "objs": "N",
+            out.append(Case("run", {"script": vlib.hx(alias_program(rng)), "objs": enc_struct([("Count", rng.choice([3, 70000])), ("Ratio", 2.5)]),
                                     "ops": ";".join(["prepare:" + rng.choice(["opt", "noopt"])] + ["exec:0"] * rng.choice([1, 2, 3]) +
                                                     ["getvar:" + vlib.hx(v) for v in ("a", "b", "c", "prev")])}, "alias-sequences"))
         return out
 
 def alias_program(rng):
-    V = ["a", "b", "c"]
+    V = ["a", "b", "c"] + (["Count", "Ratio"] if rng.random() < 0.3 else [])
     pre = "function f(p) { p++; p++; return p; } function g(p) { q = p; p--; return [p, q]; } function k(p) { return p; } "
-    st = ["%s = %s;" % (v, lit(rng.choice(LITS))) for v in V] if rng.random() < 0.8 else ["if (!a) { a = 1; b = 2.5; c = 70000; }"]
+    st = ["%s = %s;" % (v, lit(rng.choice(LITS))) for v in V[:3]] if rng.random() < 0.8 else ["if (!a) { a = 1; b = 2.5; c = 70000; }"]
     st += ["arr = [a, b];", "h = {\"k\": c};", "prev = 0;", "r = 0;"]
     for _ in range(rng.randint(3, 9)):
         X, Y = rng.choice(V), rng.choice(V)
